@@ -8,6 +8,16 @@ NOT_YET = {}
 TB = ("Trusted: Lean kernel (axioms propext, Classical.choice, Quot.sound only; audited by #print axioms on every run); "
       "the hand-written model's correspondence to the code (differential, bounded by the generators whose distribution is in the evidence); ")
 CLAIMS = {
+ "C20": dict(
+  category="proof",
+  text=("Lean 4 theorems over a model of the id-naming checker: totality — for EVERY list of (id, name) pairs (any byte strings, hence every name of "
+        "the documented grammar incl. text after a hyphenated number) the checker returns a list of failures and never panics: every word it produces is "
+        "non-empty, so no unwrap on an empty word is reachable (assumption: number_to_words never returns an empty string); self-consistency — for a single "
+        "game there is an id E (a function of the name alone) such that an id is accepted exactly when it is E or, for a name with a '-', the id expected "
+        "for the part after the first '-'. Tie + oracle: grammar-generated names x ids (the ids the checker itself reports, near misses, junk) and lists of "
+        "1-4 games on the real crate in-process; accepted = reported set, independent of the wrong id proposed; the shipped table passes."),
+  note=TB + "ASCII names (Unicode is_alphabetic/to_lowercase outside the model); roman_numeral mirrored in Lean, number_to_words a parameter table filled from the real crate at check time; the shipped-table pass is checked by running model and implementation on it, not by a kernel evaluation.",
+  technique="Lean 4 proof (non-emptiness invariant through the word pipeline; case analysis of the rule-8 recursion) + grammar-driven differential"),
  "C14": dict(
   category="proof",
   text=("Translation + Lean 4 proof: tools/xlate.py regenerates on every run the definitions table (96 games) and every dedicated module's parameters "
